@@ -4,6 +4,7 @@ package main
 
 import (
 	"fmt"
+	"go/token"
 	"go/types"
 	"sort"
 	"strings"
@@ -454,7 +455,7 @@ func (ex *Exec) loopVars(hdr *ssa.BasicBlock, phiVal func(*ssa.Phi) Term) map[st
 				if x.Comment == "" {
 					continue
 				}
-				name, v = x.Comment, x
+				name, v = strings.ReplaceAll(x.Comment, ".", "_"), x
 			default:
 				continue
 			}
@@ -487,7 +488,7 @@ func (ex *Exec) loopVars(hdr *ssa.BasicBlock, phiVal func(*ssa.Phi) Term) map[st
 			break
 		}
 		if phi.Comment != "" {
-			vars[phi.Comment] = SV{phiVal(phi), phi.Type()}
+			vars[strings.ReplaceAll(phi.Comment, ".", "_")] = SV{phiVal(phi), phi.Type()}
 		}
 	}
 	return vars
@@ -524,7 +525,7 @@ func (ex *Exec) enterLoop(b *ssa.BasicBlock, l *Loop, conds []Term, heaps []*Hea
 			for _, inv := range spec.Invariants {
 				g := sc.evalBool(inv)
 				q.oblige(fmt.Sprintf("%s/inv.init@loop%d.%s", q.fnName, l.ordinal, inv.Label), "inv.init", conds[k], g,
-					ex.P.fset.Position(b.Instrs[0].Pos()), "loop invariant on entry: "+inv.Text)
+					ex.P.fset.Position(firstPos(b)), "loop invariant on entry: "+inv.Text)
 			}
 		}
 	}
@@ -654,6 +655,55 @@ func (ex *Exec) applyEffects(h *Heap, effs []Effect, l *Loop, guard Term) *Heap 
 	return nh
 }
 
+// exitEdges emits the "loop N exit" obligations for edges b->s that leave a loop containing b.
+func (ex *Exec) exitEdges(b *ssa.BasicBlock, heap *Heap, reach Term) {
+	if ex.depth > 0 || ex.contract == nil {
+		return
+	}
+	for _, l := range ex.li.headers {
+		if !l.body[b] {
+			continue
+		}
+		spec := ex.loopClauses(l)
+		if spec == nil || len(spec.Exits) == 0 {
+			continue
+		}
+		for _, s := range b.Succs {
+			if l.body[s] {
+				continue
+			}
+			cond := and(reach, ex.edgeCond(b, s, 0))
+			// header phis: values at the end of this iteration when b also carries the back edge, else current
+			pi := -1
+			for i, p := range l.hdr.Preds {
+				if p == b {
+					pi = i
+				}
+			}
+			vars := ex.loopVars(l.hdr, func(phi *ssa.Phi) Term {
+				if pi >= 0 {
+					return ex.val(phi.Edges[pi])
+				}
+				return ex.vals[phi]
+			})
+			sc := ex.specCtx(vars, heap)
+			pos := ex.P.fset.Position(firstPos(l.hdr))
+			for _, c := range spec.Exits {
+				ex.q.oblige(fmt.Sprintf("%s/inv.exit@loop%d.%s", ex.q.fnName, l.ordinal, c.Label), "inv.exit", cond, sc.evalBool(c), pos, "on leaving the loop: "+c.Text)
+			}
+		}
+	}
+}
+
+func firstPos(b *ssa.BasicBlock) token.Pos {
+	for _, i := range b.Instrs {
+		if i.Pos().IsValid() {
+			return i.Pos()
+		}
+	}
+	return token.NoPos
+}
+
 func (ex *Exec) backEdge(b, hdr *ssa.BasicBlock, cond Term, heap *Heap) {
 	q := ex.q
 	l := ex.li.byHeader[hdr]
@@ -665,7 +715,7 @@ func (ex *Exec) backEdge(b, hdr *ssa.BasicBlock, cond Term, heap *Heap) {
 			pi = i
 		}
 	}
-	pos := ex.P.fset.Position(hdr.Instrs[0].Pos())
+	pos := ex.P.fset.Position(firstPos(hdr))
 	if spec == nil {
 		return
 	}
